@@ -169,7 +169,7 @@ def _edges(ctx, col, np):
         col.evaluations += 1; col.states += 1; col.nontrivial += 1
         if attempt(ed) != 'refused': col.violation('C13/edges/unsorted-accepted', 'unsorted/repeated edges %s accepted' % ed, {'edges': ed})
     # floating-point uniform grids must be accepted at any scale; scaled non-uniform grids must be refused
-    for lo, hi, nb in ((0, 1, 10), (0, 1, 128), (-1e6, 1e6, 256), (0, 1e-6, 16), (1000, 1001, 100), (-3.3, 7.9, 37), (0, 255, 255)):
+    for lo, hi, nb in ((0, 1, 10), (0, 1, 128), (-1e6, 1e6, 256), (0, 1e-6, 16), (0, 1e-9, 16), (-1e-12, 1e-12, 8), (0, 1e9, 64), (1000, 1001, 100), (-3.3, 7.9, 37), (0, 255, 255)):
         ed = np.linspace(lo, hi, nb + 1)
         col.evaluations += 1; col.states += 1
         r = attempt(ed, True)
@@ -190,7 +190,7 @@ def _edges(ctx, col, np):
             da = scared.MIADistinguisher(bins_number=8, partitions=[0, 1, 2, 3]); da.update(Xa, Ya); da.compute()
         except Exception as e:
             col.violation('C13/edges/automatic-binning-raised', 'MIADistinguisher(bins_number=8) on %s traces: %s: %s' % (tdt, type(e).__name__, e), {'tdtype': tdt})
-    for scale in (1e-6, 1e-3, 1.0, 1e3, 1e6):
+    for scale in (1e-12, 2.0 ** -40, 1e-9, 1e-6, 1e-3, 1.0, 1e3, 1e6, 1e9, 2.0 ** 40):          # the unit of the samples is not part of the rule (traces in nA or in ADC counts)
         for base in ([0, 2, 3], [0, 1, 3], [0, 1, 3, 4], [0, 1, 2, 4], [0, 3, 4, 5], [0, 1, 2, 3, 5]):
             ed = [b * scale for b in base]
             col.evaluations += 1; col.states += 1; col.nontrivial += 1
